@@ -115,13 +115,16 @@ package node
 // a mempool check builds its context with exec == false (every handler then selects the scratch view) and
 // does not touch the block being executed
 //@ func (ctrler *RigoApp) CheckTx(req)
+//@   nopanic
 //@   objinv wf_app(ctrler) && ctrler.lastBlockCtx != nil
+//@   assumes ctrler.rootConfig.Config != nil && ctrler.rootConfig.Consensus != nil
 //@   modifies everything
 //@   preserves RigoApp.*, BlockContext.blockInfo, BlockContext.feeSum, BlockContext.appHash, BlockContext.GovHandler, BlockContext.AcctHandler, BlockContext.StakeHandler, BlockContext.ValUpdates, Config.*
 //@   assert@call(NewTrxContext,0): $arg3 == false                                                             [C06]
 
 // a query is answered at the requested height, or at the last committed height when none is given
 //@ func (ctrler *RigoApp) Query(req)
+//@   nopanic
 //@   requires ctrler != nil && ctrler.lastBlockCtx != nil && ctrler.acctCtrler != nil && ctrler.stakeCtrler != nil && ctrler.govCtrler != nil && ctrler.vmCtrler != nil && ctrler.logger != nil
 //@   assumes !cons_ok
 //@   modifies everything
